@@ -421,15 +421,36 @@ def r3_exit(chk, rl):
         return
     gtest = Env(rl.node).expand(g.test, keep={"fail", "retfiles", "job"})  # a named condition (`failed = ...`) dissolves
     t = norm(gtest)
-    cond_ok = isinstance(gtest, ast.BoolOp) and isinstance(gtest.op, ast.Or) and "fail is not None" in t and (
-        "set(retfiles) != set(job.return_files)" in t or "set(job.return_files) != set(retfiles)" in t or "len(retfiles) != len(job.return_files)" in t)
+    def files_missing(d):
+        """True: the disjunct holds exactly when a requested file was not returned; False: it never does; None: unknown"""
+        while isinstance(d, ast.Call) and call_name(d) == "bool" and len(d.args) == 1:
+            d = d.args[0]
+        td = norm(d)
+        if td in ("set(retfiles) != set(job.return_files)", "set(job.return_files) != set(retfiles)", "len(retfiles) != len(job.return_files)", "len(job.return_files) != len(retfiles)"):
+            return True
+        if td in ("set(job.return_files) - set(retfiles)", "set(job.return_files).difference(retfiles)", "set(job.return_files).difference(set(retfiles))",
+                  "not set(job.return_files) <= set(retfiles)", "not set(job.return_files).issubset(retfiles)", "any((f not in retfiles for f in job.return_files))"):
+            return True
+        if td in ("set(retfiles) - set(job.return_files)", "set(retfiles).difference(job.return_files)", "set(retfiles).difference(set(job.return_files))"):
+            return False   # only requested files are ever returned: this difference is always empty
+        return None
+
+    disj = gtest.values if isinstance(gtest, ast.BoolOp) and isinstance(gtest.op, ast.Or) else [gtest]
+    fm = [files_missing(d) for d in disj]
+    has_fail = any(norm(d) in ("fail is not None", "fail != None") for d in disj)
+    if any(v is None for v, d in zip(fm, disj) if norm(d) not in ("fail is not None", "fail != None")):
+        unknown = [d for v, d in zip(fm, disj) if v is None and norm(d) not in ("fail is not None", "fail != None")]
+        raise AnalysisError(f"run_local: the exit test `{short(gtest, 70)}` contains `{short(unknown[0], 40)}`, which is not a known way to ask whether a requested file is missing")
+    cond_ok = has_fail and any(v is True for v in fm)
+    never = [d for v, d in zip(fm, disj) if v is False]
     body_exit = [c for b in g.body for c in ast.walk(b) if isinstance(c, ast.Call) and call_name(c) in ("exit", "sys.exit")]
     else_exit = [c for b in g.orelse for c in ast.walk(b) if isinstance(c, ast.Call) and call_name(c) in ("exit", "sys.exit")]
     fail_nonzero = all(c.args and isinstance(c.args[0], ast.Constant) and c.args[0].value not in (0, None) for c in body_exit)
     others = [c for c in exits if c not in body_exit and c not in else_exit]
     chk.decide(cond_ok and fail_nonzero and len(else_exit) == 1 and not others, "C17.R3", key, rl.where(g),
                f"`if {short(g.test, 70)}: exit(1) else: exit({norm(else_exit[0].args[0]) if else_exit and else_exit[0].args else ''})`",
-               f"the success exit is not guarded by both conditions (`{short(g.test, 80)}`; {len(others)} other exit call(s)): the process can exit 0 although a command failed or a requested file is missing")
+               f"the success exit is not guarded by both conditions (`{short(gtest, 80)}`; {len(others)} other exit call(s)): the process can exit 0 although a command failed or a requested file is missing"
+               + (f" - `{short(never[0], 50)}` is always empty (only requested files are ever returned)" if never else ""))
 
 
 def r4_recorded(chk, rl, rule):
@@ -479,7 +500,9 @@ def r5_job_codec(chk):
         chk.require(d is not None and l is not None, f"{cname}.dump/load vanished")
         chk.analysed(d, l)
         dc = [c for c in walk_no_nested(d.node) if isinstance(c, ast.Call) and call_name(c) in ("msgpack.dump", "msgpack.dumps", "msgpack.pack", "msgpack.packb")]
-        okd = len(dc) == 1 and norm(dc[0].args[0]) == "attrs.asdict(self)" and not [k for k in dc[0].keywords if k.arg not in (None,)]
+        from ..canon import Env as _E5d
+
+        okd = len(dc) == 1 and norm(_E5d(d.node).expand(dc[0].args[0], at=dc[0])) == "attrs.asdict(self)" and not [k for k in dc[0].keywords if k.arg not in (None,)]
         chk.decide(okd, "C17.R5", f"{d.key}:dumps-asdict-unmodified", d.where(dc[0] if dc else None), "msgpack.dump(attrs.asdict(self), f)",
                    f"{cname}.dump serialises `{norm(dc[0].args[0]) if dc else None}`, not attrs.asdict(self) as is: the object read back differs from the one written"
                    + (" and hashes differently, so input_hash never matches the caller's hash" if cname == "JobInput" else ""))
@@ -489,5 +512,8 @@ def r5_job_codec(chk):
     h = prog.func(f"{JOB}:JobInput.hash", "getter")
     chk.analysed(h)
     hc = [c for c in walk_no_nested(h.node) if isinstance(c, ast.Call) and call_name(c) in ("msgpack.dumps", "msgpack.packb")]
-    chk.decide(len(hc) == 1 and norm(hc[0].args[0]) == "attrs.asdict(self)", "C17.R5", f"{h.key}:digest-of-asdict", h.where(), "hash = digest(msgpack.dumps(attrs.asdict(self)))",
+    from ..canon import Env as _E5
+
+    harg = norm(_E5(h.node).expand(hc[0].args[0], at=hc[0])) if len(hc) == 1 else None
+    chk.decide(len(hc) == 1 and harg == "attrs.asdict(self)", "C17.R5", f"{h.key}:digest-of-asdict", h.where(), "hash = digest(msgpack.dumps(attrs.asdict(self)))",
                "JobInput.hash does not digest the same mapping that dump writes")
